@@ -52,7 +52,7 @@ D_EXEMPT = {
 }
 
 DATA_PARAM_HINTS = {"self", "cls"}
-NON_DATA = {"check_input", "deep", "return_distances", "method", "parallelized", "dimout", "n_neighbors", "exc", "verbose", "fLOG"}
+NON_DATA = {"random_state", "state", "check_input", "deep", "return_distances", "method", "parallelized", "dimout", "n_neighbors", "exc", "verbose", "fLOG"}
 
 
 def _entry_points(repo):
